@@ -642,7 +642,57 @@ def _s_format(ex, st, s, args, kwargs, node, spec):
     return StrV(fresh("fmt.arr", AII), fresh("fmt.n", I))
 
 
+FIRSTIDX = z3.Function("FIRST_INDEX", AII, I, I, I)
+
+
+def first_index(cx, s, ch):
+    """Index of the first occurrence of character ch in s (len(s) if absent), with defining axioms per use."""
+    cache = cx.__dict__.setdefault("_firstidx", set())
+    key = (s.arr.get_id(), s.n.get_id(), ch)
+    p = FIRSTIDX(s.arr, s.n, z3.IntVal(ch))
+    if key not in cache:
+        cache.add(key)
+        t = z3.Int("t!fi")
+        cx.axioms += [0 <= p, p <= s.n, z3.Or(p == s.n, s.arr[p] == ch),
+                      z3.ForAll([t], z3.Implies(z3.And(0 <= t, t < p), s.arr[t] != ch))]
+    return p
+
+
+def _s_partition(ex, st, s, args, kwargs, node, spec):
+    sep = args[0]
+    if not (isinstance(sep, PyConst) and isinstance(sep.v, str) and len(sep.v) == 1):
+        raise Unsupported("str.partition with a non-constant or multi-character separator")
+    p = first_index(ex.cx, s, ord(sep.v))
+    found = p < s.n
+    left = str_slice(s, z3.IntVal(0), p)
+    mid = StrV(z3.K(I, z3.IntVal(ord(sep.v))), z3.If(found, 1, 0))
+    right = str_slice(s, z3.If(found, p + 1, s.n), s.n)
+    return TupV((left, mid, right))
+
+
+def _s_find(ex, st, s, args, kwargs, node, spec):
+    sub = args[0]
+    if isinstance(sub, PyConst) and isinstance(sub.v, str) and len(sub.v) == 1:
+        p = first_index(ex.cx, s, ord(sub.v))
+        return z3.If(p < s.n, p, -1)
+    fn = z3.Function("STR_FIND", AII, I, AII, I, I)
+    sub = as_str(sub)
+    r = fn(s.arr, s.n, sub.arr, sub.n)
+    st.pc.append(z3.And(-1 <= r, r <= s.n))
+    return r
+
+
+def _s_replace(ex, st, s, args, kwargs, node, spec):
+    a, b = as_str(args[0]), as_str(args[1])
+    fa = z3.Function("STR_REPLACE.arr", AII, I, AII, I, AII, I, AII)
+    fn = z3.Function("STR_REPLACE.n", AII, I, AII, I, AII, I, I)
+    n = fn(s.arr, s.n, a.arr, a.n, b.arr, b.n)
+    st.pc.append(n >= 0)
+    return StrV(fa(s.arr, s.n, a.arr, a.n, b.arr, b.n), n)
+
+
 STR_METHODS = {
+    "partition": _s_partition, "find": _s_find, "replace": _s_replace,
     "upper": _map_chars(UPPER), "lower": _map_chars(LOWER), "startswith": _s_startswith, "endswith": _s_endswith,
     "count": _s_count, "encode": _s_encode, "decode": _s_encode, "format": _s_format,
 }
